@@ -187,8 +187,19 @@ def check_geometry(case, ctx: Ctx):
     # additivity under merging
     ax = case["merge_axis"] % d
     amount = case["merge_amount"]
-    if not model.gaps(pairs[ax]) and shape[ax] >= 2:
-        mrg = ctx.call("merge_bins", h.merge_bins, amount, axis=ax)
+    if shape[ax] >= 2:
+        if model.gaps(pairs[ax]):
+            # with gaps a merge is possible as long as no run spans one; the merged bins must not swallow the gaps
+            ok, mrg = ctx.maybe(h.merge_bins, amount, axis=ax)
+            if not ok:
+                mrg = None
+            else:
+                ctx.label("merged_gapped_axis")
+        else:
+            mrg = ctx.call("merge_bins", h.merge_bins, amount, axis=ax)
+    else:
+        mrg = None
+    if mrg is not None:
         require(type(mrg) is type(h), "merge_class", type(mrg).__name__)
         ms = np.asarray(mrg.bin_sizes, dtype=float)
         for idx in itertools.product(*[range(s) for s in ms.shape]):
@@ -244,6 +255,15 @@ def geometry_cases(draw, tier="quick"):
     if cls in ("Histogram1D", "Histogram2D", "HistogramND3", "HistogramND4"):
         d = {"Histogram1D": 1, "Histogram2D": 2, "HistogramND3": 3, "HistogramND4": 4}[cls]
         axes = [draw(hgen.axis(1, 6 if d < 4 else 3, gapped=None)) for _ in range(d)]
+        if draw(st.integers(0, 4)) == 0:
+            # irregular bins on a very small scale (nanoseconds): width differences far below any absolute tolerance
+            k_ = draw(st.integers(0, d - 1))
+            n_ = draw(st.integers(2, 6))
+            e_ = [0.0]
+            for _ in range(n_):
+                e_.append(e_[-1] + draw(st.sampled_from([1.0, 2.0, 3.0, 0.5, 4.0])))
+            sc_ = draw(st.sampled_from([1e-9, 1e-12, 2.0 ** -30]))
+            axes[k_] = {"form": draw(st.sampled_from(["static", "numpy", "edges"])), "pairs": [[a * sc_, b * sc_] for a, b in zip(e_[:-1], e_[1:])], "incl": True}
         for i, ax in enumerate(axes):  # denormal-scale widths only exercise product underflow: out of domain
             if min(r - l for l, r in ax["pairs"]) < 1e-60:
                 axes[i] = {"form": "static", "pairs": [[0.0, 1.0], [1.0, 3.0], [3.0, 3.5]], "incl": True}
